@@ -751,7 +751,28 @@ func errorsCase(e *emitter, t *etree, brk int) {
 	}))
 }
 
+// wide: a join of `width` leaves, nested `depth` levels down a chain of single-child joins.
+func wideTree(width, depth int) *etree {
+	t := &etree{}
+	for i := 1; i <= width; i++ {
+		t.kids = append(t.kids, &etree{leaf: i})
+	}
+	for ; depth > 0; depth-- {
+		t = &etree{kids: []*etree{t, {leaf: 100000 + depth}}}
+	}
+	return t
+}
+
 func suiteErrors(g *gen, e *emitter, n int) {
+	// joins far wider than anything random generation builds: around the widths at which a fixed-size buffer would end
+	for _, w := range []int{63, 64, 65, 127, 128, 129, 255, 256, 257, 1000} {
+		for _, d := range []int{0, 2} {
+			t := wideTree(w, d)
+			for _, brk := range []int{0, 1, w - 1, w, w + 1} {
+				errorsCase(e, t, brk)
+			}
+		}
+	}
 	for i := 0; i < n; i++ {
 		next := 0
 		t := g.etree(1+g.n(4), &next)
